@@ -43,6 +43,17 @@ def gen_rounds(seed, tier, run):
         out.append(f"insert {a} {lst([n + 1])} a1:77 n")
         out.append(f"insert {a} {lst([0])} a1x1:77 n")
         out.append(f"insert {a} {lst([0, 1])} a3:1,2,3 n")
+    # long request lists with repeated, unsorted positions and distinguishable values: values requested for the same
+    # position must come out in request order (std's sort switches algorithm above 20 elements)
+    for sh, L in (([10], 24), ([10], 33), ([10], 40), ([3], 48), ([2, 2, 2], 64), ([5], 100), ([1], 35)):
+        cnt = prod(sh)
+        for step, off in ((7, 3), (3, 1), (1, 0)):
+            pos = [(step * k + off) % (cnt + 1) for k in range(L)]
+            out.append(f"insert {arr(sh)} {lst(pos)} {arr([L], base=1000)} n")
+        pos = [rng.randrange(cnt + 1) for _ in range(L)]
+        rts.append((len(out), pos))
+        out.append(f"insert {arr(sh)} {lst(pos)} {arr([L], base=1000)} n")
+        out.append(f"delete {arr([L + cnt])} {lst([rng.randrange(L + cnt) for _ in range(L)])} n")
     for sh in shapes(3, 3):
         n = len(sh)
         a = arr(sh)
